@@ -375,7 +375,8 @@ def gen(ctx):
             what, exp = "rotation block scaled by %g" % kk, {"is_so3": False, "is_se3": False, "is_sim3": True}
         elif m == 3:
             sh = np.eye(3)
-            sh[int(rng.integers(0, 3)), int(rng.integers(0, 3))] += float(rng.choice([3e-6, 5e-5, 1e-3, 1e-2, 0.2]))
+            ii = int(rng.integers(0, 3))
+            sh[ii, (ii + 1 + int(rng.integers(0, 2))) % 3] += float(rng.choice([3e-6, 5e-5, 1e-3, 1e-2, 0.2]))   # off-diagonal only
             p[:3, :3] = r @ sh
             what, exp = "sheared rotation block", {"is_so3": False, "is_se3": False, "is_sim3": False}
         elif m == 4:
